@@ -1,10 +1,12 @@
 import Pywbem.Model.CimJson
 import Pywbem.Model.CimXmlDec
+import Pywbem.Model.XmlParse
 open Lean Pywbem.Proto Pywbem.Model Pywbem.Model.CimJson Pywbem.Model.XmlText
 
 /-! C01 driver.  ops:
   {"op":"enc","obj":obj,"codec":{…}}   -> {"xml":cps}                          ser (encObj o)
   {"op":"dec","tree":tt,"codec":{…}}   -> {"ok":obj} | {"exc":…}               decode 8 tree
+  {"op":"par","s":cps}                 -> {"tree":tt|null}                     XmlParse.par (proved against Xml.ser)
   {"op":"txt","s":cps}                 -> {"text":cps|null,"attr":cps|null}    wireText / wireAttr
 -/
 
@@ -35,6 +37,10 @@ def handle (j : Json) : Json :=
     match decode (decCodecOfJson (getField j "codec")) 8 (xmlOfJson (getField j "tree")) with
     | .ok o => Json.mkObj [("ok", objToJson o)]
     | .error e => e.toJson
+  | some "par" =>
+    match Pywbem.Model.XmlParse.par ((getChars j "s").getD []) with
+    | some t => Json.mkObj [("tree", xmlToJson t)]
+    | none => Json.mkObj [("tree", Json.null)]
   | some "txt" =>
     let s := (getChars j "s").getD []
     Json.mkObj [("text", optToJson cpsToJson (wireText s)), ("attr", optToJson cpsToJson (wireAttr s))]
